@@ -55,7 +55,7 @@ func TestVerifC13ClientAnswer(t *testing.T) {
 		"v=0\r\no=- 0 0 IN IP4 0\r\ns=-\r\nt=0 0\r\nr=1\r\n",
 		"",
 	}
-	n := vlib.Scale(60, 1500)
+	n := vlib.Scale(60, 400)
 	cfg := &webrtc.Configuration{}
 	for i := 0; i < n+len(witnesses); i++ {
 		var sdp, desc string
